@@ -194,6 +194,22 @@ def slice_int(e, s, n=None):
 def install_big(eng, reg):
     eng.big_bounds = {}
 
+    def int_mod(x, m):
+        """x mod m (m a positive constant) as a fresh remainder with an explicit quotient, so that the
+        path condition stays polynomial (see intprove.py)"""
+        key = ('mod', x.get_id(), m)
+        if key in eng.mod_memo and eng.mod_memo[key][0].eq(x):
+            r = eng.mod_memo[key][1]
+            return r
+        r = eng.fresh_int('rem')
+        q = eng.fresh_int('quo')
+        eng.assume(z3.And(r >= 0, r < m, x == q * m + r))
+        eng.big_bounds[id_of(r)] = (0, m - 1, r)
+        eng.mod_memo[key] = (x, r)
+        return r
+    eng.int_mod = int_mod
+    eng.mod_memo = {}
+
     def load_raw(p):
         o = eng.heap[p.obj][0]
         for q in p.path:
@@ -303,8 +319,7 @@ def install_big(eng, reg):
         if isinstance(xv, int):
             r = xv % abs(yv)
         else:
-            r = xv % abs(yv)
-            mk(r, 0, abs(yv) - 1)
+            r = e.int_mod(xv, abs(yv))
         store_raw(z, Big(r))
         return z
     reg(P + 'Mod', mod)
@@ -326,7 +341,8 @@ def install_big(eng, reg):
         if e.branch(gv % nv == 0):
             return NILPTR
         inv = e.fresh_int('modinv')
-        e.assume(z3.And(inv > 0, inv < nv, (gv * inv) % nv == 1))
+        q = e.fresh_int('modinvq')
+        e.assume(z3.And(inv > 0, inv < nv, gv * inv == 1 + q * nv))
         mk(inv, 1, nv - 1)
         e.modinv_facts.append((gv, inv, nv))
         store_raw(z, Big(inv))
